@@ -40,11 +40,20 @@ pub fn lib_parse(ctx: &mut Ctx, bytes: &[u8]) -> Option<(Vec<Entry>, usize)> {
         Ok((g, c, true)) => {
             if bytes.len() < 600 {
                 let m = Misaligned::new(bytes);
-                let mut s = m.slice();
-                let g2 = conv(&chronobox_fifo(&mut s));
-                if g2 != g || m.slice().len() - s.len() != c {
-                    ctx.violation("parsing depends on the alignment of the input slice", String::new(), json!({"bytes": hex(bytes)}));
-                    return None;
+                match guard(|| {
+                    let mut s = m.slice();
+                    let g2 = conv(&chronobox_fifo(&mut s));
+                    (g2, m.slice().len() - s.len())
+                }) {
+                    Ok((g2, c2)) if g2 == g && c2 == c => {}
+                    Ok(_) => {
+                        ctx.violation("parsing depends on the alignment of the input slice", String::new(), json!({"bytes": hex(bytes)}));
+                        return None;
+                    }
+                    Err(p) => {
+                        ctx.panic_violation("chronobox_fifo (odd address)", &p, json!({"bytes": hex(bytes)}));
+                        return None;
+                    }
                 }
             }
             Some((g, c))
